@@ -1,6 +1,7 @@
 (* C07 -- batches partition the work exactly and honour the requested size or count.
    Property theorems only; every proof is `exact`/short assembly of lemmas from Proofs/. *)
 From XV Require Import Prelude Batch GenBatch BridgeBatch BatchProofs.
+From XV Require Stages GenStages BridgeStages.
 Open Scope Z_scope.
 
 Definition sizes_ok {A} (bs : list (list A)) (f : Z -> Z) : Prop :=
@@ -87,6 +88,27 @@ Proof.
     apply choose_both_ok. lia.
 Qed.
 
+(* the N the plan is made for is the N that is sown: at both sowing entry points the batch planner is handed
+   the same combos AND cases terms as the runner that enumerates the settings (call sites regenerated) *)
+Theorem C07_planner_counts_what_is_sown : forall (x : list (Z * list Z)),
+  let cs := GenStages.gen_sow_combos_sites in let ca := GenStages.gen_sow_cases_sites in
+  (Stages.dterm_eval (Stages.ds_batch_combos cs) x = Stages.dterm_eval (Stages.ds_run_combos cs) x
+   /\ Stages.ds_batch_cases cs = Stages.ds_run_cases cs)
+  /\ (Stages.dterm_eval (Stages.ds_batch_combos ca) x = Stages.dterm_eval (Stages.ds_run_combos ca) x
+      /\ Stages.ds_batch_cases ca = Stages.ds_run_cases ca).
+Proof.
+  intros x cs ca. subst cs ca.
+  destruct (BridgeStages.consistent_one_description GenStages.gen_sow_combos_sites eq_refl) as (_ & _ & -> & ->).
+  destruct (BridgeStages.consistent_one_description GenStages.gen_sow_cases_sites eq_refl) as (_ & _ & -> & ->).
+  repeat split.
+Qed.
+
+(* sensitivity: a planner that is not handed the sub-combos of sow_cases plans for the wrong N *)
+Lemma C07_planner_without_combos_refuted :
+  let x := [(2, [7; 8; 9])] in
+  Stages.descr_size (Stages.dterm_eval Stages.DAbsent x) <> Stages.descr_size (Stages.dterm_eval (Stages.DParse Stages.DArg) x).
+Proof. vm_compute. discriminate. Qed.
+
 (* the tie: the definitions regenerated from cropping.py on this run are the model *)
 Theorem C07_code_tie :
   (forall cne pc sne lc bs nb r,
@@ -112,4 +134,5 @@ Print Assumptions C07_by_size.
 Print Assumptions C07_by_count.
 Print Assumptions C07_nonempty.
 Print Assumptions C07_reload.
+Print Assumptions C07_planner_counts_what_is_sown.
 Print Assumptions C07_code_tie.
